@@ -117,7 +117,10 @@ def benign_table():
         sm = " ".join(meta.get("summary", "").split()).replace("|", "\\|")
         if len(sm) > 200:
             sm = sm[:197] + "..."
-        rows.append(f"| {d.name} | {sm} | {', '.join(al) if al else 'silent'} | silent |")
+        unres = meta.get("confirmed_by_me", {}).get("unresolved")
+        now = ("**unresolved**: " + " ".join(unres.split())[:160].replace("|", "\\|")) \
+            if unres else "silent"
+        rows.append(f"| {d.name} | {sm} | {', '.join(al) if al else 'silent'} | {now} |")
     return "\n".join(rows)
 
 
